@@ -231,8 +231,11 @@ pub fn crash_outcome(sc: &Scenario, sig: i32, _partial: &[u8]) -> Outcome {
         libc::SIGKILL => "SIGKILL",
         _ => "signal",
     };
+    // runs with files beyond 1 GiB have their address space capped by the harness (see
+    // runner::address_space_limit): an abort there is an allocation the cap refused, not a verdict
+    let capped = sc.tree.entries.iter().any(|e| matches!(&e.kind, EntryKind::File(Content::Sparse { len, .. }) if *len > 1 << 30));
     match sc.property.as_str() {
-        "C04" | "C06" => {
+        "C04" | "C06" if !(capped && sig == libc::SIGABRT) => {
             o.evaluated = true;
             o.verdicts.push(v(
                 &sc.property,
@@ -982,8 +985,9 @@ fn c03(cx: &Ctx, o: &mut Outcome) {
             continue;
         }
         let lk = model::lookup(&cx.fs, &rq.target);
-        let file = match lk.allowed.as_slice() {
-            [Answer::File(p)] => cx.fs.file(p).cloned().unwrap_or_default(),
+        let no_file: Vec<u8> = vec![];
+        let file: &Vec<u8> = match lk.allowed.as_slice() {
+            [Answer::File(p)] => cx.fs.file(p).unwrap_or(&no_file),
             _ => continue,
         };
         // "for a single range a Content-Length equal to the bytes sent", whatever the class of the range
@@ -1035,7 +1039,7 @@ fn c03(cx: &Ctx, o: &mut Outcome) {
                         o.verdicts.push(v("C03", "in_file.part_count", format!("{}: {} ranges requested, {} parts sent", ctx_txt, want.len(), ps.len()), Some(i)));
                     } else {
                         for (k, (label, body)) in ps.iter().enumerate() {
-                            match check_slice(label, body, &file) {
+                            match check_slice(label, body, file) {
                                 Err((kind, e)) => {
                                     let shape = range_shape(&range, k);
                                     o.verdicts.push(v("C03", format!("in_file.{}.{}", shape, kind), format!("{}: part {}: {}", ctx_txt, k, e), Some(i)));
@@ -1067,7 +1071,7 @@ fn c03(cx: &Ctx, o: &mut Outcome) {
             },
             (RangeClass::InFile(_), 200) if rq.header("If-Range").is_some() => {
                 // RFC 9110 13.1.5: a validator that does not match turns the request into a plain GET
-                if resp.body != file {
+                if &resp.body != file {
                     o.verdicts.push(v("C03", "if_range.200_not_whole_file", format!("{} If-Range: {:?}: answered 200 with {} bytes that are not the whole file", ctx_txt, rq.header("If-Range"), resp.body.len()), Some(i)));
                 }
             }
@@ -1076,7 +1080,7 @@ fn c03(cx: &Ctx, o: &mut Outcome) {
             }
             (_, 416) => {}
             (RangeClass::Malformed, 200) => {
-                if resp.body != file {
+                if &resp.body != file {
                     o.verdicts.push(v("C03", "malformed.200_not_whole_file", format!("{}: 200 with {} bytes that are not the file", ctx_txt, resp.body.len()), Some(i)));
                 }
             }
@@ -1090,7 +1094,7 @@ fn c03(cx: &Ctx, o: &mut Outcome) {
                     Err(e) => o.verdicts.push(v("C03", format!("{}.{}", cname, e), format!("{}: {}", ctx_txt, e), Some(i))),
                     Ok(ps) => {
                         for (k, (label, body)) in ps.iter().enumerate() {
-                            match check_slice(label, body, &file) {
+                            match check_slice(label, body, file) {
                                 Err((kind, e)) => {
                                     let shape = range_shape(&range, k);
                                     o.verdicts.push(v("C03", format!("{}.{}.{}", cname, shape, kind), format!("{}: part {}: {}", ctx_txt, k, e), Some(i)));
